@@ -27,7 +27,8 @@ def rhs_rule(ctx, rule):
         it, fc, parts = _step(ctx, cls)
         seen = set()
         for p, ev, A, b in parts:
-            st = [e for e in p.events if e.kind == "store_sub" and isinstance(e.data["base"], Arr2) and e.data["value"] is ev.data.get("result")]
+            res = ev.data.get("result")
+            st = [e for e in p.events if e.kind == "store_sub" and isinstance(e.data["base"], Arr2) and (e.data["value"] is res or (hasattr(e.data["value"], "qual") and e.data["value"].qual.endswith("[0]") and e.data["value"].args.get("of") is res))]
             if not st or nf.key(b.gen) in seen:
                 continue
             seen.add(nf.key(b.gen))
